@@ -492,7 +492,7 @@ def _sort_gathered_items(items):
 
     # Eventually extend with fixed items:
     for item in fixed_items:
-        if item.n > items_length:
+        if item.n >= items_length:
             items_length = (item.n + 1)
 
     # Create list of sorted items:
